@@ -13,7 +13,9 @@ Import ListNotations. Open Scope Z_scope.
 
 Record Def := mkDef {
   d_type : bool;          (* a TypeDef: queued on types_to_check_worklist *)
-  d_deps : list Z;        (* DefIds looked up through Globals while parsing/checking, in order *)
+  d_deps : list Z;        (* NAMES looked up through Globals (frame namespace) while parsing/checking *)
+  d_nested : list Z;      (* names of nested non-capturing recursive helpers: registered as global
+                             definitions and visible under their name while the body is checked *)
   d_check_ok : bool;      (* false: the checker raises a GuppyError for this definition *)
   d_comptime : bool;      (* lowered by tracing (set_tracing_state) *)
   d_trace_ok : bool;      (* false: the traced Python body raises *)
@@ -31,6 +33,7 @@ Record Def := mkDef {
 (* a checked definition as it sits in ENGINE.checked, with the fields later passes mutate *)
 Record Checked := mkChecked {
   c_def : Def;
+  c_deps : list Z;        (* the DefIds its names resolved to (GlobalCall nodes carry ids) *)
   c_tmp0 : Z;             (* value of the %tmp counter when its check started *)
   c_const0 : Z;           (* value of the GlobalConstId counter when its ids were drawn *)
   c_exit : list Z;        (* exit-block signature; return variable i is encoded as -1-i *)
@@ -49,7 +52,9 @@ Record Sess := mkSess {
   exvar_ctr : Z;                (* ExistentialVar._fresh_id *)
   const_ctr : Z;                (* GlobalConstId._fresh_ids *)
   tracing : bool;               (* tracing.state._STATE is not None *)
-  exts : list Z                 (* ENGINE.additional_extensions: configuration, never reset *)
+  exts : list Z;                (* ENGINE.additional_extensions: configuration, never reset *)
+  ns : list (Z * Z)             (* the Python namespace of the defining frame (module __dict__):
+                                   name -> DefId.  Lives outside the engine: reset() cannot clear it *)
 }.
 
 Inductive err := KeyErr (id : Z) | CheckErr (id : Z) | TraceErr (id : Z) | OutOfFuel.
@@ -62,7 +67,7 @@ Definition memz (k : Z) (l : list Z) : bool := existsb (Z.eqb k) l.
 (* ---- CompilationEngine.reset *)
 Definition reset (s : Sess) : Sess :=
   mkSess (store s) (next_def s) [] [] [] [] [] (tmp_ctr s) (exvar_ctr s) (const_ctr s)
-         (tracing s) (exts s).
+         (tracing s) (exts s) (ns s).
 
 (* ---- CompilationEngine.get_parsed *)
 Definition get_parsed (s : Sess) (id : Z) : Sess * option Def :=
@@ -73,18 +78,29 @@ Definition get_parsed (s : Sess) (id : Z) : Sess * option Def :=
          (mkSess (store s) (next_def s) (id :: parsed s) (checked s) (compiled s)
                  (if d_type d then to_check s else id :: to_check s)
                  (if d_type d then id :: types_to_check s else types_to_check s)
-                 (tmp_ctr s) (exvar_ctr s) (const_ctr s) (tracing s) (exts s), Some d)
+                 (tmp_ctr s) (exvar_ctr s) (const_ctr s) (tracing s) (exts s) (ns s), Some d)
        end.
 
 (* Globals lookups made while a definition is parsed and checked *)
 Fixpoint visit_deps (s : Sess) (deps : list Z) : Sess * option Z :=
   match deps with
   | [] => (s, None)
-  | x :: r => match get_parsed s x with
-              | (s1, None) => (s1, Some x)
-              | (s1, Some _) => visit_deps s1 r
+  | x :: r => match lookup (ns s) x with
+              | None => (s, Some x)                         (* name not defined *)
+              | Some id => match get_parsed s id with
+                           | (s1, None) => (s1, Some x)
+                           | (s1, Some _) => visit_deps s1 r
+                           end
               end
   end.
+Definition resolve_all (s : Sess) (deps : list Z) : list Z :=
+  map (fun x => match lookup (ns s) x with Some id => id | None => -1 end) deps.
+
+(* check_nested_func_def, non-capturing recursive helper: where does its name get bound?
+   leak = true: `globals.f_locals[name] = ...` (the frame namespace itself; outlives the check);
+   leak = false (fix-3): in a copy that is dropped when the nested body has been checked. *)
+Definition bind_nested (leak : bool) (s : Sess) (d : Def) : list (Z * Z) :=
+  if leak then map (fun n => (n, next_def s)) (d_nested d) ++ ns s else ns s.
 
 Definition init_exit (d : Def) : list Z := [d_body d mod 2; 7].  (* some non-return places *)
 
@@ -101,20 +117,20 @@ Definition get_checked (s : Sess) (id : Z) : Sess * res :=
            let s3 := mkSess (store s2) (next_def s2) (parsed s2) (checked s2) (compiled s2)
                             (to_check s2) (types_to_check s2)
                             (t0 + d_ntmp d) (exvar_ctr s2 + d_nexvar d) (const_ctr s2)
-                            (tracing s2) (exts s2) in
+                            (tracing s2) (exts s2) (ns s2) in
            if negb (d_check_ok d) then (s3, Err (CheckErr id))
            else
-             let c := mkChecked d t0 (const_ctr s3) (init_exit d) 0 in
-             (mkSess (store s3) (next_def s3 + Z.of_nat (d_ngen d)) (parsed s3) ((id, c) :: checked s3)
+             let c := mkChecked d (resolve_all s3 (d_deps d)) t0 (const_ctr s3) (init_exit d) 0 in
+             (mkSess (store s3) (next_def s3 + Z.of_nat (d_ngen d) + Z.of_nat (length (d_nested d))) (parsed s3) ((id, c) :: checked s3)
                      (compiled s3) (to_check s3) (types_to_check s3)
                      (tmp_ctr s3) (exvar_ctr s3) (const_ctr s3 + d_nconst d)
-                     (tracing s3) (exts s3), Ok)
+                     (tracing s3) (exts s3) (bind_nested nested_writes_namespace s3 d), Ok)
          end
        end.
 
 Definition set_worklists (s : Sess) (tc tt : list Z) : Sess :=
   mkSess (store s) (next_def s) (parsed s) (checked s) (compiled s) tc tt
-         (tmp_ctr s) (exvar_ctr s) (const_ctr s) (tracing s) (exts s).
+         (tmp_ctr s) (exvar_ctr s) (const_ctr s) (tracing s) (exts s) (ns s).
 
 (* ---- the while loop of CompilationEngine.check: types first, popitem = LIFO *)
 Fixpoint check_loop (fuel : nat) (s : Sess) : Sess * res :=
@@ -152,7 +168,7 @@ Definition check (fuel : nat) (s : Sess) (id : Z) : Sess * res :=
 Definition is_return_var (v : Z) : bool := v <? 0.
 Definition return_vars (n : nat) : list Z := map (fun i => -1 - Z.of_nat i) (seq 0 n).
 Definition insert_return_vars (c : Checked) : Checked :=
-  mkChecked (c_def c) (c_tmp0 c) (c_const0 c) (return_vars (d_rets (c_def c)) ++ c_exit c)
+  mkChecked (c_def c) (c_deps c) (c_tmp0 c) (c_const0 c) (return_vars (d_rets (c_def c)) ++ c_exit c)
             (c_input_tys c).
 Definition guarded_insert (c : Checked) : Checked :=
   if negb guard_present || forallb (fun v => negb (is_return_var v)) (c_exit c)
@@ -167,7 +183,7 @@ Definition gen_syms (c : Checked) : list Z :=
 Definition lower1 (id : Z) (c : Checked) : Checked * Frag :=
   let c1 := guarded_insert c in
   let c2 := if d_rec_closure (c_def c1)
-            then mkChecked (c_def c1) (c_tmp0 c1) (c_const0 c1) (c_exit c1) (c_input_tys c1 + 1)
+            then mkChecked (c_def c1) (c_deps c1) (c_tmp0 c1) (c_const0 c1) (c_exit c1) (c_input_tys c1 + 1)
             else c1 in
   (c2, mkFrag id (sort_vars compare_var_name_order (c_tmp0 c) (d_row (c_def c))) (c_exit c1)
               (gen_syms c) (d_body (c_def c))).
@@ -186,13 +202,13 @@ Fixpoint update {A} (l : list (Z * A)) (k : Z) (v : A) : list (Z * A) :=
 
 Definition set_checked (s : Sess) (ch : list (Z * Checked)) : Sess :=
   mkSess (store s) (next_def s) (parsed s) ch (compiled s) (to_check s) (types_to_check s)
-         (tmp_ctr s) (exvar_ctr s) (const_ctr s) (tracing s) (exts s).
+         (tmp_ctr s) (exvar_ctr s) (const_ctr s) (tracing s) (exts s) (ns s).
 Definition set_compiled (s : Sess) (cp : list Z) : Sess :=
   mkSess (store s) (next_def s) (parsed s) (checked s) cp (to_check s) (types_to_check s)
-         (tmp_ctr s) (exvar_ctr s) (const_ctr s) (tracing s) (exts s).
+         (tmp_ctr s) (exvar_ctr s) (const_ctr s) (tracing s) (exts s) (ns s).
 Definition set_tracing (s : Sess) (b : bool) : Sess :=
   mkSess (store s) (next_def s) (parsed s) (checked s) (compiled s) (to_check s)
-         (types_to_check s) (tmp_ctr s) (exvar_ctr s) (const_ctr s) b (exts s).
+         (types_to_check s) (tmp_ctr s) (exvar_ctr s) (const_ctr s) b (exts s) (ns s).
 
 (* `with set_tracing_state(state): body`: value of the flag after the block *)
 Definition trace_scope (has_finally raises prev : bool) : bool :=
@@ -221,7 +237,7 @@ Fixpoint compile_loop (fuel : nat) (s : Sess) (wl comp : list Z) (out : list Fra
              else
                let (c', fs) := lower (d_insts (c_def c)) id c in
                compile_loop f (set_checked s (update (checked s) id c'))
-                            (rev (d_deps (c_def c)) ++ r) (id :: comp) (out ++ fs)
+                            (rev (c_deps c) ++ r) (id :: comp) (out ++ fs)
            end
     end
   end.
@@ -242,16 +258,16 @@ Inductive pyres := PyComptimeError | PyTracedGarbage.
 Definition pycall (s : Sess) : pyres := if tracing s then PyTracedGarbage else PyComptimeError.
 
 (* ---- session operations *)
-Inductive op := ORegister (d : Def) | OCheck (id : Z) | OCompile (id : Z) | OPyCall (id : Z).
+Inductive op := ORegister (name : Z) (d : Def) | OCheck (id : Z) | OCompile (id : Z) | OPyCall (id : Z).
 
-Definition register (s : Sess) (d : Def) : Sess :=
+Definition register (s : Sess) (name : Z) (d : Def) : Sess :=
   mkSess (store s ++ [(next_def s, d)]) (next_def s + 1) (parsed s) (checked s) (compiled s)
          (to_check s) (types_to_check s) (tmp_ctr s) (exvar_ctr s) (const_ctr s)
-         (tracing s) (exts s).
+         (tracing s) (exts s) (ns s ++ [(name, next_def s)]).
 
 Definition exec_op (fuel : nat) (s : Sess) (o : op) : Sess :=
   match o with
-  | ORegister d => register s d
+  | ORegister n d => register s n d
   | OCheck id => fst (check fuel s id)
   | OCompile id => fst (fst (compile fuel s id))
   | OPyCall _ => s
